@@ -280,11 +280,12 @@ func traversalGuards(c *Ctx) {
 					continue
 				}
 				if p, ok := f.m.(*types.Var); ok {
-					t := p.Type().String()
-					if strings.Contains(t, "rootElementsIndex") {
+					// recognised by shape, not by the name of the type: the boundary set maps
+					// identifiers to struct{}, the visited index maps identifiers to nodes
+					switch mapShape(p.Type()) {
+					case "set":
 						boundary = true
-					}
-					if strings.Contains(t, "nodeIndex") {
+					case "nodes":
 						visited = true
 					}
 				}
@@ -298,14 +299,18 @@ func traversalGuards(c *Ctx) {
 			switch s := n.(type) {
 			case *ast.IfStmt:
 				if as, ok := s.Init.(*ast.AssignStmt); ok && len(as.Rhs) == 1 {
-					if strings.Contains(types.ExprString(as.Rhs[0]), "boundaries") {
-						testPos = s.Pos()
+					if ix, isIx := as.Rhs[0].(*ast.IndexExpr); isIx {
+						if o, isVar := baseObj(d, ix.X).(*types.Var); isVar && mapShape(o.Type()) == "set" {
+							testPos = s.Pos()
+						}
 					}
 				}
 			case *ast.AssignStmt:
 				for _, l := range s.Lhs {
-					if ix, ok := l.(*ast.IndexExpr); ok && strings.Contains(types.ExprString(ix.X), "connectedNodes") {
-						insPos = s.Pos()
+					if ix, ok := l.(*ast.IndexExpr); ok {
+						if o, isVar := baseObj(d, ix.X).(*types.Var); isVar && mapShape(o.Type()) == "nodes" {
+							insPos = s.Pos()
+						}
 					}
 				}
 			}
@@ -655,4 +660,23 @@ func typeOfExpanded(d *declInfo, e ast.Expr) types.Type {
 		}
 	}
 	return nil
+}
+
+// mapShape classifies (a pointer to) a map by what it holds: "set" for map[string]struct{},
+// "nodes" for map[string]*Node; "" otherwise.
+func mapShape(t types.Type) string {
+	if p, ok := t.Underlying().(*types.Pointer); ok {
+		t = p.Elem()
+	}
+	m, ok := t.Underlying().(*types.Map)
+	if !ok {
+		return ""
+	}
+	if st, isStruct := m.Elem().Underlying().(*types.Struct); isStruct && st.NumFields() == 0 {
+		return "set"
+	}
+	if isNodePtr(m.Elem()) {
+		return "nodes"
+	}
+	return ""
 }
